@@ -103,8 +103,10 @@ class Mut:
             return self._exe[flavor]
 
     def cpp_copy(self, proto: str, infmt: str, outfmt: str, data: bytes, flavor: str = "plain",
-                 bufs=None, version: str | None = None, skip_close=False, cpu_s: int = 20, empty_batches=False):
+                 bufs=None, version: str | None = None, skip_close=False, cpu_s: int = 20, empty_batches=False, in_file: str | None = None):
         args = [proto, infmt, outfmt]
+        if in_file:
+            args += ["--in-file", in_file]
         if empty_batches:
             args.append("--empty-batches")
         if bufs:
